@@ -767,23 +767,18 @@ func runC18More(c *Ctx) {
 		for _, fn := range p.AllSrcFuncs(pk) {
 			for _, ci := range calls(fn, func(ci ssa.CallInstruction) bool { return staticCalleeFn(ci) == check }) {
 				nSites++
-				// inside a goroutine body (anonymous function started with `go`) whose go statement is guarded by counter == 1
-				okSite := false
-				if fn.Parent() != nil {
-					for _, r := range *fnReferrers(fn) {
-						if g, ok := r.(*ssa.Go); ok {
-							for _, gd := range guardsOf(g.Block()) {
-								if op, x, y, ok := cmpOf(gd); ok && op == token.EQL {
-									if k, ok := constInt(y); ok && k == 1 {
-										if _, path := fieldChain(x); len(path) > 0 {
-											okSite = true
-										}
-									}
-								}
+				// inside the body of the checker goroutine – an anonymous function or a method that runs only as a goroutine whose
+				// go statement is guarded by counter == 1 – or in a helper that only such a body calls (robust_A8.go)
+				okSite := confinedToGuardedGoroutine(p, fn, func(gd Guard) bool {
+					if op, x, y, ok := cmpOf(gd); ok && op == token.EQL {
+						if k, ok := constInt(y); ok && k == 1 {
+							if _, path := fieldChain(x); len(path) > 0 {
+								return true
 							}
 						}
 					}
-				}
+					return false
+				}, 3)
 				if !okSite && fn.Parent() == nil {
 					// a synchronous check made by the first user before the checker goroutine exists is equally exclusive:
 					// guarded by counter == 1 and executed before the go statement
